@@ -310,10 +310,22 @@ def run_job(job, rec):
             rec.check(high.min() >= xg[0] - span_tol and high.max() <= xg[-1] + span_tol, "high-density-region-not-covered",
                       lambda: f"variable {i}: conditional exceeds exp(-7.9) of its peak on [{high.min()!r}, {high.max()!r}] but the grid is [{xg[0]!r}, {xg[-1]!r}]", ictx)
 
+        # an integer-typed conditioning point gives the conditionals through the same point as floats
+        pi_ = np.round(point).astype(int)
+        inside_i = all(b[0] < v < b[1] for v, b in zip(pi_, bounds))
+        close = all(abs(pi_[i] - post.cond(i, pi_.astype(float))[0]) <= 1.5 * post.cond(i, pi_.astype(float))[1] for i in range(d)) if narrow is False else True
+        if inside_i and close:
+            oa, ob = guarded(get_conditionals, post, bounds, pi_, gsz), guarded(get_conditionals, post, bounds, pi_.astype(float), gsz)
+            rec.count("integer_point_cases")
+            okd = not isinstance(oa, Raised) and not isinstance(ob, Raised) and np.allclose(oa[0], ob[0], rtol=1e-12, atol=0) and np.allclose(oa[1], ob[1], rtol=1e-9, atol=0)
+            rec.check(okd, "depends-on-dtype-of-point", lambda: f"an integer-typed conditioning point {pi_.tolist()} gives different conditionals from the same point as floats ({post.kind})", ctx)
+
         # history: the same conditioning-point array, moved in place (inside the same restrictions), then used again
         if d >= 1:
             shift = np.array([0.3 * post.cond(i, point)[1] * rng.choice([-1, 1]) for i in range(d)])
             newp = np.clip(point + shift, [b[0] for b in bounds], [b[1] for b in bounds])
+            point[:] = 0.5 * (point + newp)
+            guarded(get_conditionals, post, bounds, point, gsz)
             point[:] = newp
             out2 = guarded(get_conditionals, post, bounds, point, gsz)
             rec.count("in_place_point_updates")
